@@ -332,7 +332,7 @@ class ExperimentSpace:
                 "sample_names", data=encode_string_array_for_h5(self.sample_mapping[0])
             )
             f.create_dataset("sample_ids", data=self.sample_mapping[1])
-            f.attrs["control_treatment_name"] = self.control_treatment_name
+            f.attrs["control_treatment_name"] = str(self.control_treatment_name)
 
     @classmethod
     def load_h5(cls, path: str):
@@ -1224,7 +1224,7 @@ class Screen(ScreenBase):
                 data=encode_string_array_for_h5(self.plate_names),
                 compression="gzip",
             )
-            f.attrs["control_treatment_name"] = self.control_treatment_name
+            f.attrs["control_treatment_name"] = str(self.control_treatment_name)
 
     @staticmethod
     def load_h5(path):
